@@ -172,6 +172,9 @@ fn main() {
             let count: usize = args[3].parse().unwrap();
             extra::configs(seed, count).print();
         }
+        "handlefaults" => {
+            extra::handle_faults().print();
+        }
         "metaclock" => {
             let seed: u64 = args[2].parse().unwrap();
             let count: usize = args[3].parse().unwrap();
